@@ -46,6 +46,12 @@ class SourceDataWrapper(ABC):
         # total number of rows - guessed from the first dataset
         total_n_rows = self._data_source[next(iter(mapping.values()))].shape[0]
 
+        # no data set can be shorter than the first one (from which the number of rows is taken)
+        for dataset_name in mapping.values():
+            if (n := self._data_source[dataset_name].shape[0]) < total_n_rows:
+                raise ValueError(f"All data sets must have the same number of rows; got {n} for '{dataset_name}' "
+                                 f"and {total_n_rows} for '{next(iter(mapping.values()))}'")
+
         self._from_idx = from_idx
         self._to_idx = to_idx if to_idx is not None else total_n_rows
         self._n_rows = self._to_idx - self._from_idx  # number of rows to be loaded
